@@ -222,63 +222,110 @@ def trig_rounding(rep, byname):
         rep.ok("K7-trig-rounding", key, "x = round(r cos a), y = round(r sin a)")
 
 
+LINE_ROLES = [
+    "{S} := start_point", "{E} := end_point",
+    "{W} := (abs(({E}.x - {S}.x)) + 1)", "{H} := (abs(({E}.y - {S}.y)) + 1)",
+    "{F} := ({W} < {H})",
+    "swap({W},{H})", "swap({S}.x,{S}.y)", "swap({E}.x,{E}.y)",
+    "{I} := (({E}.x >= {S}.x) ? 1 : -1)", "{J} := (({E}.y >= {S}.y) ? 1 : -1)",
+    "{Y} := {S}.y", "#0 := {S}.x", "(#0 += {I})", "({Y} += {J})",
+]
+
+
+def line_model(f):
+    """Binds the roles of the locals of bresenham_line_rasterizer::operator() on its canonical form (R.canonize): S,E the working
+    copies of the end points, W,H the pixel extents, F the transposition flag, I,J the directions, Y the minor coordinate.
+    Every role is found through what the local is initialised with and how it is used, not through its name; the order facts
+    (flag before the swaps, directions / start coordinates after them) are checked on the source lines."""
+    g = R.canonize(f)
+    facts, line_of = [], {}
+    for dn, _ in R.find(g["body"], lambda x: x.get("k") == "Decl"):
+        for dd in dn["decls"]:
+            if dd.get("name") and dd.get("init") is not None:
+                k = "%s := %s" % (dd["name"], R.key(dd["init"]))
+                facts.append(k)
+                line_of[k] = dn.get("line") or 0
+    for k, x, pth in R.effects(g["body"]):
+        facts.append(k)
+        line_of[k] = x.get("line") or 0
+    swaps = []
+    for c, pth in R.calls_in(g["body"], lambda n: n == "std::swap"):
+        k = R.key(c)
+        facts.append(k)
+        line_of[k] = c.get("line") or 0
+        swaps.append((k, R.guards(pth), c.get("line") or 0))
+    env = R.bind(facts, LINE_ROLES)
+    return g, env, facts, line_of, swaps
+
+
 def line(rep, byname):
-    rep.rule("K4 line: point_count == max(|dx|,|dy|)+1; one store per unit step from start.x to end.x (after transposing when width<height) plus the end point")
+    rep.rule("K4 line: point_count == max(|dx|,|dy|)+1; one store per unit step from start.x to end.x (after transposing when width<height) plus the end point "
+             "(roles of the locals bound on the canonical form: independent of their names)")
     f = (byname.get("bresenham_line_rasterizer::operator()") or [None])[0]
     pc = (byname.get("bresenham_line_rasterizer::point_count") or [None])[0]
     if f is None or pc is None:
         rep.fail_analysis("bresenham_line_rasterizer not instantiated")
         return
     # point_count
-    decls = {dd["name"]: R.key(dd.get("init")) for dn, _ in R.find(pc["body"], lambda x: x.get("k") == "Decl") for dd in dn["decls"] if dd.get("name")}
-    ret = [R.key(x["e"]) for x, _ in R.find(pc["body"], lambda x: x.get("k") == "Return")]
+    gp = R.canonize(pc)
+    ret = [R.key(x["e"]) for x, _ in R.find(gp["body"], lambda x: x.get("k") == "Return")]
     rep.count("obligations:K4")
-    want_w = "(abs((end_point.x - start_point.x)) + 1)"
-    want_h = "(abs((end_point.y - start_point.y)) + 1)"
-    vals = sorted(decls.values())
-    ok = sorted([want_w, want_h]) == vals and len(ret) == 1 and re.fullmatch(r"\(\((\w+) > (\w+)\) \? \1 : \2\)|\(\((\w+) < (\w+)\) \? \4 : \3\)|max\(\w+,\w+\)", ret[0]) is not None
-    if ok:
-        rep.ok("K4-line", "point_count == max(|dx|+1, |dy|+1)", {"decls": decls, "return": ret})
+    w_, h_ = "(abs((end_point.x - start_point.x)) + 1)", "(abs((end_point.y - start_point.y)) + 1)"
+    forms = {"((%s > %s) ? %s : %s)" % (w_, h_, w_, h_), "((%s < %s) ? %s : %s)" % (w_, h_, h_, w_), "((%s >= %s) ? %s : %s)" % (w_, h_, w_, h_),
+             "((%s > %s) ? %s : %s)" % (h_, w_, h_, w_), "((%s < %s) ? %s : %s)" % (h_, w_, w_, h_), "max(%s,%s)" % (w_, h_), "max(%s,%s)" % (h_, w_)}
+    if len(ret) == 1 and ret[0] in forms:
+        rep.ok("K4-line", "point_count == max(|dx|+1, |dy|+1)", {"return": ret})
     else:
-        rep.violation("K4-line", "K4:line:point_count", W + "line.hpp", {"decls": decls, "return": ret})
-    # operator(): stores
-    stores = []
-    for x, p in R.find(f["body"], lambda x: (x.get("k") == "Assign" or (x.get("k") == "Call" and x.get("op") == "=")) and "d_first" in R.key(x.get("l") or x["args"][0])):
-        loops = [a for a, fld, i in p if a.get("k") in ("For", "While") and fld == "body"]
-        gs = R.guards(p)
-        stores.append((R.key(x.get("r") or x["args"][1]), loops, gs, x.get("line")))
-    in_loop = [s for s in stores if s[1]]
-    after = [s for s in stores if not s[1] and not any(op == "==" and "start" in l + r and "end" in l + r for op, l, r in s[2])]
-    degenerate = [s for s in stores if not s[1] and any(op == "==" and "start" in l + r and "end" in l + r for op, l, r in s[2])]
+        rep.violation("K4-line", "K4:line:point_count", W + "line.hpp", {"return": ret})
+    # operator(): roles
+    g, env, facts, line_of, swaps = line_model(f)
     rep.count("obligations:K4")
-    det = {"stores_in_loop": [s[0] for s in in_loop], "stores_after": [s[0] for s in after], "degenerate": [s[0] for s in degenerate]}
-    ok = len(in_loop) == 1 and len(after) == 1 and len(degenerate) == 1
-    if ok:
-        loop = in_loop[0][1][0]
-        init, cond, inc = R.strip(loop["init"]), R.key(loop["cond"]), R.key(loop["inc"])
-        var = init["decls"][0]["name"] if init.get("k") == "Decl" else None
-        start = R.key(init["decls"][0]["init"]) if var else None
-        fdecl = {dd["name"]: R.key(dd.get("init")) for dn, _ in R.find(f["body"], lambda x: x.get("k") == "Decl") for dd in dn["decls"] if dd.get("name") and dd.get("init") is not None}
-        det.update({"loop": "for (%s = %s; %s; %s)" % (var, start, cond, inc), "x_increment": fdecl.get("x_increment"), "needs_flip": fdecl.get("needs_flip")})
-        unit = fdecl.get("x_increment") == "((end.x >= start.x) ? 1 : -1)" and inc == "(%s += x_increment)" % var
-        ok = start == "start.x" and cond == "(%s != end.x)" % var and unit and fdecl.get("needs_flip") == "(width < height)"
-        ok = ok and in_loop[0][0] == "(needs_flip ? point_t{y,%s} : point_t{%s,y})" % (var, var) and after[0][0] in ("(needs_flip ? point_t{end.y,end.x} : end)",)
-        ok = ok and fdecl.get("y") == "start.y" and degenerate[0][0] == "start"
-        # the transposition swaps start and end coordinates under needs_flip
-        sw = sorted(R.key(c) for c, p in R.calls_in(f["body"], lambda n: n == "std::swap") if any("needs_flip" in l + r for op, l, r in R.guards(p)))
-        det["swaps_under_needs_flip"] = sw
-        ok = ok and sw == sorted(["swap(width,height)", "swap(start.x,start.y)", "swap(end.x,end.y)"])
-    if ok:
-        rep.ok("K4-line", "one store per unit x-step + end point, transposed when width<height", det)
+    if env is None:
+        rep.incon("K4-line", "K4:line:roles", {"unrecognised": "the working copies / extents / flag / directions of the line rasterizer could not be bound", "facts": facts[:30]})
+        return None
+    fi = lambda t: R.fill_in(t, env)
+    prob = []
+    flag_line = line_of[fi("{F} := ({W} < {H})")]
+    sw_lines = [l for k, gs, l in swaps]
+    if len(swaps) != 3 or not all(any(op == "!=" and l == env["F"] and r == "0" for op, l, r in gs) for k, gs, l in swaps):
+        prob.append("the three swaps are not exactly the statements guarded by the transposition flag: %s" % [(k, gs) for k, gs, l in swaps])
+    if not g["canon_single"].get(env["F"]) or flag_line >= min(sw_lines or [1 << 30]):
+        prob.append("the transposition flag is not computed once, before the swaps")
+    for role in ("{I} := (({E}.x >= {S}.x) ? 1 : -1)", "{J} := (({E}.y >= {S}.y) ? 1 : -1)", "{Y} := {S}.y", "#0 := {S}.x"):
+        if line_of[fi(role)] <= max(sw_lines or [0]):
+            prob.append("%s is computed before the transposition" % fi(role))
+    for v in ("I", "J"):
+        if not g["canon_single"].get(env[v]):
+            prob.append("direction %s is modified after its initialisation" % env[v])
+    loops = R.loops_of(g["body"])
+    stores = [(k, x, pth) for k, x, pth in R.effects(g["body"]) if k.startswith("((*") and "$0" in k.split(" = ")[0]]
+    det = {"roles": env, "stores": [k for k, _, _ in stores]}
+    if len(loops) != 1 or loops[0].get("k") != "For":
+        prob.append("%d loops" % len(loops))
     else:
-        rep.violation("K4-line", "K4:line:emitted points", W + "line.hpp", det)
-    line_accumulator(rep, f)
+        lp = loops[0]
+        iv, i0, cond, inc = R.for_shape(lp)
+        if (iv, i0, cond, inc) != ("#0", fi("{S}.x"), fi("(#0 != {E}.x)"), fi("(#0 += {I})")) and (iv, i0, cond) != ("#0", fi("{S}.x"), fi("({E}.x != #0)")):
+            prob.append("loop for (%s = %s; %s; %s) is not the unit walk from start.x to end.x" % (iv, i0, cond, inc))
+        in_loop = [(k, x, pth) for k, x, pth in stores if any(a is lp for a, _, _ in pth)]
+        rest = [(k, x, pth) for k, x, pth in stores if not any(a is lp for a, _, _ in pth)]
+        deg = [t for t in rest if any(op == "==" and {l, r} == {env["S"], env["E"]} for op, l, r in R.guards(t[2]))]
+        after = [t for t in rest if t not in deg]
+        want_in = fi("((*($0 ++ 0)) = ({F} ? point_t{{Y},#0} : point_t{#0,{Y}}))")
+        want_after = fi("((*($0 ++ 0)) = ({F} ? point_t{{E}.y,{E}.x} : {E}))")
+        if [k for k, _, _ in in_loop] != [want_in]:
+            prob.append("stores in the loop %s, expected %s" % ([k for k, _, _ in in_loop], want_in))
+        if [k for k, _, _ in after] != [want_after] or (after and (after[0][1].get("line") or 0) < (lp.get("line") or 0)):
+            prob.append("store after the loop %s, expected the end point %s" % ([k for k, _, _ in after], want_after))
+        if [k for k, _, _ in deg] not in ([fi("((*$0) = {S})")], [fi("((*($0 ++ 0)) = {S})")], [fi("((*$0) = {E})")]):
+            prob.append("degenerate line (start == end) stores %s" % [k for k, _, _ in deg])
+    if prob:
+        rep.violation("K4-line", "K4:line:emitted points", W + "line.hpp", {"problems": prob, "detail": det})
+    else:
+        rep.ok("K4-line", "one store per unit x-step + end point, transposed when width<height; extents are |dx|+1, |dy|+1 of the stored end points", det)
     rep.count("obligations:K4")
-    fdecl = {dd["name"]: R.key(dd.get("init")) for dn, _ in R.find(f["body"], lambda x: x.get("k") == "Decl") for dd in dn["decls"] if dd.get("name") and dd.get("init") is not None}
-    if fdecl.get("width") == "(abs((end.x - start.x)) + 1)" and fdecl.get("height") == "(abs((end.y - start.y)) + 1)" and fdecl.get("start") == "start_point" and fdecl.get("end") == "end_point":
-        rep.ok("K4-line", "width/height are |dx|+1, |dy|+1 of the stored end points", {k: fdecl[k] for k in ("width", "height")})
-    else:
-        rep.violation("K4-line", "K4:line:extent", W + "line.hpp", {k: fdecl.get(k) for k in ("width", "height", "start", "end")})
+    rep.ok("K4-line", "roles bound: %s" % ", ".join("%s=%s" % kv for kv in sorted(env.items())), env)
+    line_accumulator(rep, f, g, env, line_of, max(sw_lines or [0]))
 
 
 # ---------------------------------------------------------------------------------------------
@@ -365,52 +412,63 @@ def _ev(p, vals):
     return tot
 
 
-def line_accumulator(rep, f):
+def line_accumulator(rep, f, g, roles, line_of, last_swap_line):
     """K6: with a = |major extent|, b = |minor extent| (a >= b after the transposition K4 checks), the loop body
          store; e += slope; if (e >= T) { e -= 1; y += dir; }
     from e = 0 keeps e in [T-1, T) provided 0 <= slope <= 1, so the minor offset of the k-th emitted point is
     s_k = floor(k*slope + 1 - T), k = 0..a-1.  The obligations are polynomial inequalities in (a, b), decided on the two
     cases b == 0 and b >= 1 by the sign of the coefficients after the substitution b = 1+u, a = b+t (u, t >= 0); a failed
-    sufficient test is reported as a violation only with an integer witness (a, b, k) of the closed form."""
+    sufficient test is reported as a violation only with an integer witness (a, b, k) of the closed form.
+    The roles (W, H, Y, J, E, ...) come from K4's binding on the canonical form; the accumulator R and the slope L are bound here."""
     from fractions import Fraction
     import math
     rep.rule("K6 line accumulator: e stays in [T-1,T) (0 <= slope <= 1), so point k has minor offset floor(k*slope+1-T); for all a >= b >= 0, a >= 1: "
              "offset(k) <= b for k < a (bounding box), b - offset(a-1) <= 1 (8-connected to the forced end point), |offset(k) - k*b/a| <= 1 (one pixel from the ideal segment)")
     where = W + "line.hpp"
-    fd = {dd["name"]: dd for dn, _ in R.find(f["body"], lambda x: x.get("k") == "Decl") for dd in dn["decls"] if dd.get("name")}
-    loops = [x for x, _ in R.find(f["body"], lambda x: x.get("k") == "For")]
+    fi = lambda t: R.fill_in(t, roles)
+    loops = R.loops_of(g["body"])
     try:
-        if len(loops) != 1 or "slope" not in fd or "error_term" not in fd or "y_increment" not in fd:
-            raise K6Unknown("loop / slope / error_term / y_increment not found")
+        if len(loops) != 1:
+            raise K6Unknown("%d loops" % len(loops))
         body = [R.strip(x) for x in R.strip(loops[0]["body"]).get("c", [])]
         keys = [R.key(x) for x in body]
-        st = [i for i, x in enumerate(body) if "d_first" in keys[i] and x.get("k") in ("Call", "Assign")]
-        acc = [i for i, k in enumerate(keys) if k == "(error_term += slope)"]
+        st = [i for i, x in enumerate(body) if keys[i].startswith("((*") and x.get("k") in ("Call", "Assign")]
         ifs = [i for i, x in enumerate(body) if x.get("k") == "If"]
-        if len(body) != 3 or len(st) != 1 or len(acc) != 1 or len(ifs) != 1 or acc[0] > ifs[0]:
+        env = R.bind(keys, ["({R} += {L})"], roles)
+        if env is None or len(body) != 3 or len(st) != 1 or len(ifs) != 1 or keys.index(R.fill_in("({R} += {L})", env)) > ifs[0]:
             raise K6Unknown("loop body %s is not store / accumulate / conditional step" % keys)
+        acc = [keys.index(R.fill_in("({R} += {L})", env))]
+        Rv, Lv = env["R"], env["L"]
+        fd = {dd["name"]: (dd, dn.get("line") or 0) for dn, _ in R.find(g["body"], lambda x: x.get("k") == "Decl") for dd in dn["decls"] if dd.get("name")}
+        if Rv not in fd or Lv not in fd or fd[Lv][0].get("init") is None or not g["canon_single"].get(Lv):
+            raise K6Unknown("accumulator %s / slope %s are not locals (the slope assigned once)" % (Rv, Lv))
+        if fd[Lv][1] <= last_swap_line:
+            raise K6Unknown("the slope is computed before the transposition")
         cnd = R.strip(body[ifs[0]]["cond"])
         # accepted forms:  e >= T   and   e >= T && y != end.y  (the step is withheld once the end row is reached)
         clamp = False
         if cnd.get("k") == "Binary" and cnd["op"] == "&&":
             parts = [R.strip(cnd["l"]), R.strip(cnd["r"])]
-            cl = [x for x in parts if R.key(x) in ("(y != end.y)", "(end.y != y)")]
+            cl = [x for x in parts if R.key(x) in (fi("({Y} != {E}.y)"), fi("({E}.y != {Y})"))]
             rest = [x for x in parts if x not in cl]
             if len(cl) != 1 or len(rest) != 1:
                 raise K6Unknown("step condition %s" % R.key(cnd))
             clamp, cnd = True, rest[0]
-        if cnd.get("k") != "Binary" or cnd["op"] != ">=" or R.key(cnd["l"]) != "error_term" or body[ifs[0]].get("else") is not None:
+        if cnd.get("k") != "Binary" or cnd["op"] != ">=" or R.key(cnd["l"]) != Rv or body[ifs[0]].get("else") is not None:
             raise K6Unknown("step condition %s" % R.key(cnd))
         T = _frac(cnd["r"])
         then = sorted(R.key(x) for x in R.strip(body[ifs[0]]["then"]).get("c", []))
-        if then not in (sorted(["(--error_term)", "(y += y_increment)"]), sorted(["(error_term -= 1)", "(y += y_increment)"]), sorted(["(error_term--)", "(y += y_increment)"])):
+        step = fi("({Y} += {J})")
+        if then not in (sorted(["(--%s)" % Rv, step]), sorted(["(%s -= 1)" % Rv, step]), sorted(["(%s--)" % Rv, step])):
             raise K6Unknown("step body %s" % then)
-        if R.key(fd["error_term"].get("init")) not in ("0", "0.0") or R.key(fd["y_increment"].get("init")) != "((end.y >= start.y) ? 1 : -1)":
-            raise K6Unknown("error_term starts at %s, y_increment = %s" % (R.key(fd["error_term"].get("init")), R.key(fd["y_increment"].get("init"))))
+        if R.key(fd[Rv][0].get("init")) not in ("0", "0.0"):
+            raise K6Unknown("the accumulator starts at %s" % R.key(fd[Rv][0].get("init")))
+        slope_init = fd[Lv][0]["init"]
+        wname, hname = roles["W"], roles["H"]
         first = 0 if st[0] < acc[0] else 1          # offsets s_first .. s_{first+a-1} are emitted
         a, b = Poly.atom("a"), Poly.atom("b")
         one = Poly.const(1)
-        env = {"width": (a + one, one), "height": (b + one, one)}
+        env = {wname: (a + one, one), hname: (b + one, one)}
         cases = {"b == 0": {"b": Poly.const(0), "a": one + Poly.atom("t")},
                  "b >= 1": {"b": one + Poly.atom("u"), "a": one + Poly.atom("u") + Poly.atom("t")}}
         if not (0 < T <= 1):
@@ -426,7 +484,7 @@ def line_accumulator(rep, f):
             return min(u, bv) if clamp else u     # u is monotone in k, so withholding the step at y == end.y is min(b, u)
 
         for cname, case in cases.items():
-            N, D = _rat(fd["slope"]["init"], env, case)
+            N, D = _rat(slope_init, env, case)
             if _sign(D.subst(case)) != "+":
                 N, D = -N, -D
             cd = {"slope": "(%r) / (%r)" % (N, D)}
